@@ -81,6 +81,14 @@ pub enum Op {
     /// build a separate map with `collect()` (FromIterator) from these pairs, with or without
     /// a size hint, read it back and drop it
     Collect(Vec<(u32, u32)>, bool),
+    /// rayon `ParallelExtend` on the shared collection: the items are cut into this many parts
+    /// that the simulated pool's threads run (`via_ref`: through the pinned reference type)
+    ParExtend(Vec<(u32, u32)>, u8, bool),
+    /// rayon `FromParallelIterator`: build a separate map (or set) from these items, cut into
+    /// this many parts, read it back and drop it
+    ParCollect(Vec<(u32, u32)>, u8),
+    /// act as a worker of the simulated pool: take up to n published parts, if any, and run them
+    ParHelp(u8),
     /// guard management of the executing thread
     Pin,
     Unpin,
@@ -196,6 +204,9 @@ impl Op {
             Op::IterClose => json!(["iter_close"]),
             Op::Extend(kv) => json!(["extend", kv.iter().map(|(k, v)| json!([k, v])).collect::<Vec<_>>()]),
             Op::Collect(kv, hint) => json!(["collect", kv.iter().map(|(k, v)| json!([k, v])).collect::<Vec<_>>(), hint]),
+            Op::ParExtend(kv, parts, via_ref) => json!(["par_extend", kv.iter().map(|(k, v)| json!([k, v])).collect::<Vec<_>>(), parts, via_ref]),
+            Op::ParCollect(kv, parts) => json!(["par_collect", kv.iter().map(|(k, v)| json!([k, v])).collect::<Vec<_>>(), parts]),
+            Op::ParHelp(n) => json!(["par_help", n]),
             Op::Pin => json!(["pin"]),
             Op::Unpin => json!(["unpin"]),
             Op::Refresh => json!(["refresh"]),
@@ -208,6 +219,15 @@ impl Op {
         let a = v.as_array()?;
         let name = a.first()?.as_str()?;
         let u = |i: usize| -> Option<u32> { Some(a.get(i)?.as_u64()? as u32) };
+        let pairs = |x: &Value| -> Option<Vec<(u32, u32)>> {
+            x.as_array()?
+                .iter()
+                .map(|p| {
+                    let p = p.as_array()?;
+                    Some((p.first()?.as_u64()? as u32, p.get(1)?.as_u64()? as u32))
+                })
+                .collect::<Option<Vec<_>>>()
+        };
         Some(match name {
             "get" => Op::Get(u(1)?),
             "contains" => Op::Contains(u(1)?),
@@ -248,6 +268,9 @@ impl Op {
                     .collect::<Option<Vec<_>>>()?,
                 a.get(2)?.as_bool()?,
             ),
+            "par_extend" => Op::ParExtend(pairs(a.get(1)?)?, u(2)? as u8, a.get(3)?.as_bool()?),
+            "par_collect" => Op::ParCollect(pairs(a.get(1)?)?, u(2)? as u8),
+            "par_help" => Op::ParHelp(u(1)? as u8),
             "pin" => Op::Pin,
             "unpin" => Op::Unpin,
             "refresh" => Op::Refresh,
